@@ -10,6 +10,7 @@ from pymemcache.client.murmur3 import murmur3_32
 
 PROPERTY = "C14"
 LEVEL = "exploration"
+RULE_THREADS = (" Two threads: each hashes its own string while the other is pre-empted at every bytecode of the hash function (deterministic scheduler, one pre-emption per run; thorough: two) - every call still returns the reference value (the function is a pure function of its arguments, also under concurrency).")
 RULE = ("cases are (string, 32-bit seed); enumerated: published vectors, every string of length 0-3 "
         "(thorough: 0-3 over a larger alphabet, 4-5 over reduced ones) over representative code points "
         "incl. 0x00,0x7f,0x80,0xff x seeds {0,1,2^31,2^32-1}; Hypothesis: every length 0..64 over code "
@@ -17,10 +18,10 @@ RULE = ("cases are (string, 32-bit seed); enumerated: published vectors, every s
         "independent byte-oriented MurmurHash3_x86_32 (validated against 24 published vectors, and "
         "cross-checked against Appleby's C routine when cc exists). Non-trivial: length % 4 != 0 (tail "
         "path), or a code point >= 0x80 in the 4th position of a block (un-masked load), or seed >= 2^31, "
-        "or a code point > 255.")
+        "or a code point > 255." + RULE_THREADS)
 MANIFEST = {
     "category": "exploration",
-    "technique": "bounded-exhaustive enumeration + Hypothesis random strings, differential against an independent reference MurmurHash3 (Python, and C via ctypes)",
+    "technique": "bounded-exhaustive enumeration + Hypothesis random strings, differential against an independent reference MurmurHash3 (Python, and C via ctypes); schedule enumeration (every single pre-emption point of one call, deterministic opcode-level scheduler) for two concurrent callers",
     "text": "Every string up to length 3-5 over representative alphabets x 4 boundary seeds is enumerated, every length 0..64 and random seeds are sampled; each result is compared with an independent MurmurHash3_x86_32 validated on 24 published vectors. Right level: the function is pure and tiny, the bug classes (masking, tail, rotation, sign) are all reachable by short inputs.",
     "note": "Trusts vlib/refhash.py (validated against published vectors and the C original) and CPython integer arithmetic.",
     "design_ref": "DESIGN.md 3/C14"
@@ -130,7 +131,59 @@ def every_length_cases(tier, seed):
             yield ("".join(cs), SEEDS[r % 4] if r % 2 == 0 else (x * 2 + 1) & 0xFFFFFFFF)
 
 
+# ---- callers in several threads ---------------------------------------------------------------------------------
+
+PAIRS = [("hello-abc", "xyzzy"), ("abcd", "0123456789abc"), ("", "seven77"), ("\xff\x80\x00\x01tail", "\xe9" * 6), ("k" * 33, "k" * 34), ("node-1:11211-key", "node-2:11211-key")]
+
+
+def _hash_steps(funcs, preempt, first=0):
+    from vlib import sched
+    import pymemcache.client.murmur3 as M
+    fn = M.__file__
+    sc = sched.Scheduler(sched.preemption_chooser(preempt), lambda code: code.co_filename == fn, max_steps=200000)
+    sc.run(funcs, first=first)
+    return sc
+
+
+def thread_cases(tier, seed):
+    """two threads hash different strings; the first is pre-empted once (thorough: also twice) at every bytecode of the hash"""
+    for pi, (a, b) in enumerate(PAIRS):
+        n = _hash_steps([lambda: murmur3_32(a, 0), lambda: None], [])
+        total = n.steps
+        stride = 1 if (tier == "thorough" or total < 400) else 3
+        for p in range(1, total + 1, stride):
+            yield {"a": a, "b": b, "seed": (0, 1, 2**32 - 1)[(p + pi) % 3], "preempt": [p]}
+        if tier == "thorough":
+            for p in range(1, total + 1, 5):
+                for q in range(p + 7, p + 4 * total, 23):
+                    yield {"a": a, "b": b, "seed": 0, "preempt": [p, q]}
+
+
+def check_threads(case):
+    a, b, seed = case["a"], case["b"], case["seed"]
+    out = {}
+
+    def ta():
+        out["a"] = murmur3_32(a, seed)
+        out["a2"] = murmur3_32(a, seed)
+
+    def tb():
+        out["b"] = murmur3_32(b, seed)
+    sc = _hash_steps([ta, tb], case["preempt"])
+    desc = "thread 0 hashing %r pre-empted at bytecode step(s) %r of its call while thread 1 hashes %r (seed %#x)" % (a, case["preempt"], b, seed)
+    if sc.errors:
+        raise Violation(["threads", "raises", type(list(sc.errors.values())[0]).__name__], "murmur3_32 raised %r: %s" % (sc.errors, desc))
+    if sc.deadlock or sc.overrun:
+        raise Violation(["threads", "stuck"], "the two calls did not finish: %s" % desc)
+    for name, st_ in (("a", a), ("a2", a), ("b", b)):
+        want = refhash.murmur3(refhash.latin1(st_), seed)
+        if out.get(name) != want:
+            raise Violation(["threads", "differs-from-reference"], "murmur3_32(%r, %#x) = %r, reference %#010x: %s" % (st_, seed, out.get(name), want, desc))
+    return sc.switches > 0, ["threads", "switches=%d" % min(sc.switches, 3)]
+
+
 PARTS = [
+    Part("two-threads", "enum", check_threads, cases=thread_cases, exhaustive=True),
     Part("vectors", "enum", check_vector, cases=vector_cases, shards={"quick": 1, "thorough": 1}, exhaustive=True),
     Part("short-exhaustive", "enum", check, cases=short_cases, exhaustive=True),
     Part("every-length", "enum", check, cases=every_length_cases, shards={"quick": 1, "thorough": 4}),
